@@ -283,6 +283,7 @@ func visitInstr(fr *frame, instr ssa.Instruction) continuation {
 		fr.i.chanSend(fr.get(instr.Chan), fr.get(instr.X))
 
 	case *ssa.Store:
+		fr.i.curFn = fr.fn
 		fr.i.storeAt(mustDeref(instr.Addr.Type()), fr.get(instr.Addr), fr.get(instr.Val))
 
 	case *ssa.If:
